@@ -95,7 +95,7 @@ def decl_module(i, names):
 def run(tier, seed, replay=None):
     res = Result("C13", tier, seed, RULE)
     rng = rng_for(seed, "C13")
-    ncrates = 1 if tier == "quick" else 4
+    ncrates = 1 if tier == "quick" else 6
     crates = []
     for ci in range(ncrates):
         sets = [list(s) for s in (SETS if tier == "thorough" else rng.sample(SETS, 8))]
